@@ -34,20 +34,24 @@ type Link struct {
 	Cmd      string
 	Pol      ref.Policy
 	Nbf, Exp *time.Duration // relative to the moment of construction; nil = absent
-	Missing  bool           // CID listed in the proofs but absent from the loader
-	LoadErr  bool           // loader returns an unrelated error for it
-	PolIPLD  bool           // build the policy through policy.FromIPLD instead of the constructors
+	// absolute bounds (used for instants further away than a time.Duration can express,
+	// i.e. more than ~292 years); they take precedence over Nbf / Exp
+	NbfAbs, ExpAbs *time.Time
+	Missing        bool // CID listed in the proofs but absent from the loader
+	LoadErr        bool // loader returns an unrelated error for it
+	PolIPLD        bool // build the policy through policy.FromIPLD instead of the constructors
 }
 
 // Scenario is one invocation with its proof chain.
 type Scenario struct {
-	Invoker  *gen.Principal
-	Subject  *gen.Principal
-	Audience *gen.Principal // nil = unset
-	Cmd      string
-	Args     ref.V // map
-	Links    []Link
-	InvExp   *time.Duration
+	Invoker   *gen.Principal
+	Subject   *gen.Principal
+	Audience  *gen.Principal // nil = unset
+	Cmd       string
+	Args      ref.V // map
+	Links     []Link
+	InvExp    *time.Duration
+	InvExpAbs *time.Time
 	// authorization-irrelevant fields
 	MetaPlain  bool
 	MetaEnc    bool
@@ -124,14 +128,27 @@ func (s *Scenario) PoliciesOK(a ref.V) (ref.Tri, string) {
 // TimesOK: every bound is at a comfortable distance from "now" by construction, so the
 // sign of the offset decides.
 func (s *Scenario) TimesOK() (bool, string) {
-	if s.InvExp != nil && *s.InvExp < 0 {
+	now := time.Now()
+	if s.InvExpAbs != nil {
+		if s.InvExpAbs.Before(now) {
+			return false, "time@inv"
+		}
+	} else if s.InvExp != nil && *s.InvExp < 0 {
 		return false, "time@inv"
 	}
 	for i, l := range s.Links {
-		if l.Exp != nil && *l.Exp < 0 {
+		if l.ExpAbs != nil {
+			if l.ExpAbs.Before(now) {
+				return false, fmt.Sprintf("time-exp@%d", i)
+			}
+		} else if l.Exp != nil && *l.Exp < 0 {
 			return false, fmt.Sprintf("time-exp@%d", i)
 		}
-		if l.Nbf != nil && *l.Nbf > 0 {
+		if l.NbfAbs != nil {
+			if l.NbfAbs.After(now) {
+				return false, fmt.Sprintf("time-nbf@%d", i)
+			}
+		} else if l.Nbf != nil && *l.Nbf > 0 {
 			return false, fmt.Sprintf("time-nbf@%d", i)
 		}
 	}
@@ -224,10 +241,14 @@ func BuildDelegation(l Link, r *rand.Rand) (*delegation.Token, error) {
 	if l.Sub != nil {
 		opts = append(opts, delegation.WithSubject(l.Sub.DID))
 	}
-	if l.Exp != nil {
+	if l.ExpAbs != nil {
+		opts = append(opts, delegation.WithExpiration(*l.ExpAbs))
+	} else if l.Exp != nil {
 		opts = append(opts, delegation.WithExpirationIn(*l.Exp))
 	}
-	if l.Nbf != nil {
+	if l.NbfAbs != nil {
+		opts = append(opts, delegation.WithNotBefore(*l.NbfAbs))
+	} else if l.Nbf != nil {
 		opts = append(opts, delegation.WithNotBeforeIn(*l.Nbf))
 	}
 	opts = append(opts, delegation.WithNonce(gen.Bytes(r, 12+r.IntN(5))))
@@ -340,7 +361,9 @@ func (s *Scenario) MakeInvocation(b *Built, audience *gen.Principal, r *rand.Ran
 	if audience != nil {
 		opts = append(opts, invocation.WithAudience(audience.DID))
 	}
-	if s.InvExp != nil {
+	if s.InvExpAbs != nil {
+		opts = append(opts, invocation.WithExpiration(*s.InvExpAbs))
+	} else if s.InvExp != nil {
 		opts = append(opts, invocation.WithExpirationIn(*s.InvExp))
 	}
 	if s.MetaPlain {
@@ -391,6 +414,20 @@ func pname(p *gen.Principal) string {
 	}
 	return p.Name
 }
+
+func absT(t *time.Time) string {
+	if t == nil {
+		return "-"
+	}
+	return fmt.Sprintf("unix %d", t.Unix())
+}
+
+// FarFuture / FarPast: instants more than 292 years (the range of time.Duration and of a
+// difference of UnixNano values) away from any plausible "now", inside the range tokens accept.
+var FarFuture = []time.Time{time.Date(2330, 1, 1, 0, 0, 0, 0, time.UTC), time.Date(3000, 6, 1, 12, 0, 0, 0, time.UTC), time.Date(9999, 12, 31, 23, 59, 59, 0, time.UTC), time.Unix(1<<53-1, 0)}
+var FarPast = []time.Time{time.Date(1700, 1, 1, 0, 0, 0, 0, time.UTC), time.Date(1, 1, 1, 0, 0, 0, 0, time.UTC), time.Unix(-(1<<53 - 1), 0), time.Unix(0, 0)}
+
+func T(t time.Time) *time.Time { return &t }
 
 func dur(d *time.Duration) string {
 	if d == nil {
@@ -537,9 +574,15 @@ func FullConformant(r *rand.Rand, n int, poolPct int) *Scenario {
 		if r.IntN(3) == 0 {
 			s.Links[k].Nbf = D(-comfortable[r.IntN(len(comfortable))])
 		}
+		if r.IntN(6) == 0 {
+			s.Links[k].ExpAbs = T(FarFuture[r.IntN(len(FarFuture))])
+		}
 	}
 	if r.IntN(2) == 0 {
 		s.InvExp = D(comfortable[r.IntN(len(comfortable))])
+	}
+	if r.IntN(8) == 0 {
+		s.InvExpAbs = T(FarFuture[r.IntN(len(FarFuture))])
 	}
 	s.MetaPlain = r.IntN(3) == 0
 	s.MetaEnc = r.IntN(4) == 0
